@@ -914,6 +914,34 @@ def run_hooked(case, res, P, feats, rng, n_steps):
                           {'got': float(xb[-1]), 'perimeter': per})
             if list(f_in) != sorted(f_in):
                 res.tag('duct_pair_written_outer_first')
+        # an edge cell of the gap lies between two assemblies: both see it
+        # with the same contact length (the gap has one mesh, whichever
+        # assembly's maps are built on it)
+        wp_all = r.core.gap_params.get('asm wp') if hasattr(
+            r.core, 'gap_params') else None
+        if wp_all is not None:
+            seen_w = {}
+            for ai in range(len(r.assemblies)):
+                n_g = int(r.core._n_sc_per_asm[ai])
+                adj = np.asarray(r.core._asm_sc_adj[ai])[:n_g]
+                typ = np.asarray(r.core._asm_sc_types[ai])[:n_g]
+                for c in range(n_g):
+                    if typ[c] == 0 and adj[c] > 0:
+                        seen_w.setdefault(int(adj[c]), []).append(
+                            (ai, float(wp_all[ai][c])))
+            worst, wit = 0.0, None
+            for j, lst in seen_w.items():
+                if len(lst) == 2:
+                    d_ = abs(lst[0][1] - lst[1][1]) / max(lst[0][1],
+                                                          lst[1][1])
+                    if d_ > worst:
+                        worst, wit = d_, (j, lst)
+            res.close('H7_shared_edge_cell_has_one_width', worst, 1.0, 1e-10,
+                      'a gap edge cell between two assemblies has two '
+                      'contact lengths: %r' % (wit,),
+                      {'mech': 'shared_cell_width'})
+            res.count('shared_edge_cells_compared',
+                      sum(1 for l_ in seen_w.values() if len(l_) == 2))
         # the contact length the core multiplies fluxes with, per gap cell
         # around each assembly, is the width of that cell of the gap mesh
         wp = r.core.gap_params.get('asm wp') if hasattr(
